@@ -34,6 +34,9 @@ BASE = {
               "    inc_other = 2\n  end subroutine s2\nend module host2\n",
     # a unit with nothing to link itself (no EXTENDS, no procedure pointers): only a variable of a type from another file
     "plain.f90": "program plainp\n  use tmod\n  implicit none\n  type(shape) :: xx\n  xx%old_c = 1\nend program plainp\n",
+    "pa.f90": "module pam\ncontains\n  subroutine ps(a, b)\n    integer :: a\n    class(*) :: b\n  end subroutine ps\nend module pam\n",
+    "pb.f90": "module pbm\n  use pam\n  type :: tt\n  contains\n    procedure, pass(b) :: m => ps\n  end type tt\ncontains\n"
+              "  subroutine pu(x)\n    type(tt) :: x\n    call x%m(1)\n  end subroutine pu\nend module pbm\n",
     "long.f90": "module longm\n  integer :: a_rather_long_name_for_a_variable = 1234567890 + 1234567890 + 12345\n"
                 "  ! a comment line that is longer than the configured sixty characters, clearly\nend module longm\n",
     "w.f90": "subroutine uses_inc()\n  include 'inc.f90'\n  from_inc = 1\nend subroutine uses_inc\n",
@@ -95,6 +98,15 @@ HISTORIES = {
     "private_statement_on_included_entity_removed": [("query", None, None), ("save", "m2.f90", BASE["m2.f90"].replace("  private :: inc_priv\n", ""))],
     "private_statement_on_included_entity_moved": [("query", None, None),
                                                    ("save", "m2.f90", BASE["m2.f90"].replace("private :: inc_priv", "private :: inc_other"))],
+    # typing: one-line edits that are undone again, the disk never changes, every document is saved at the end
+    "typed_component_then_undone": [("query", None, None), ("edit", "t.f90", (2, 20, 20, ", extra")),
+                                    ("edit", "u.f90", (3, 19, 19, "x")), ("edit", "u.f90", (3, 19, 20, "")),
+                                    ("edit", "t.f90", (2, 20, 27, ""))],
+    "typed_rename_then_undone": [("edit", "t.f90", (2, 15, 20, "zzz_c")), ("query", None, None), ("edit", "u.f90", (5, 2, 2, " ")),
+                                 ("edit", "u.f90", (5, 2, 3, "")), ("edit", "t.f90", (2, 15, 20, "old_c"))],
+    "passed_object_argument_renamed": [("query", None, None), ("save", "pa.f90", BASE["pa.f90"].replace("(a, b)", "(a, c)").replace(":: b", ":: c"))],
+    "passed_object_argument_renamed_and_back": [("query", None, None), ("save", "pa.f90", BASE["pa.f90"].replace("(a, b)", "(c, a)").replace(":: b", ":: c")),
+                                                ("save", "pa.f90", BASE["pa.f90"])],
     "query_then_edit": [("query", None, None), ("save", "t.f90", BASE["t.f90"].replace("old_c", "new_c")),
                         ("save", "u.f90", BASE["u.f90"].replace("old_c", "new_c")),
                         ("save", "p.f90", BASE["p.f90"].replace("old_c", "new_c"))],
@@ -156,7 +168,7 @@ def run_history(hname, steps):
     ws = Workspace(dict(BASE))
     try:
         def start():
-            srv, rw = make_server(("--max_line_length", "60", "--max_comment_line_length", "60"))
+            srv, rw = make_server(("--max_line_length", "60", "--max_comment_line_length", "60", "--incremental_sync"))
             srv.nthreads = 1
             srv.handle({"jsonrpc": "2.0", "id": 0, "method": "initialize",
                         "params": {"rootUri": path_to_uri(ws.root), "rootPath": ws.root}})
@@ -182,6 +194,13 @@ def run_history(hname, steps):
                 ws.write(name, text)
                 files[name] = text
                 srv.handle({"jsonrpc": "2.0", "method": "textDocument/didSave", "params": {"textDocument": {"uri": uri}}})
+            elif op == "edit":
+                # a ranged edit inside one line, as typing sends it (text = (line, from column, to column, inserted text));
+                # the buffer then differs from the disk until a later edit undoes it
+                ln, c0, c1, ins = text
+                srv.handle({"jsonrpc": "2.0", "method": "textDocument/didChange",
+                            "params": {"textDocument": {"uri": uri},
+                                       "contentChanges": [{"range": {"start": {"line": ln, "character": c0}, "end": {"line": ln, "character": c1}}, "text": ins}]}})
             elif op == "change":
                 srv.handle({"jsonrpc": "2.0", "method": "textDocument/didChange",
                             "params": {"textDocument": {"uri": uri}, "contentChanges": [{"text": text}]}})
